@@ -61,6 +61,10 @@ CONSUMERS = {
     "compile-nested-quasiquote": "(var t 'x) (repeat D (set t (tuple 'quasiquote t))) (compile t)",
     "compile-qq-unquote-alternation": "(var t 'x) (repeat D (set t (tuple 'quasiquote (tuple (tuple 'unquote t))))) (compile t)",
     "compile-nested-data-quote": "(compile (tuple 'quote (nest-tuple D)))",
+    "compile-deep-destructure-def": "(var t 'a) (repeat D (set t (tuple/brackets t))) (compile (tuple 'def t 1))",
+    "compile-deep-destructure-struct": "(var t 'a) (repeat D (set t (struct :k t))) (compile (tuple 'def t 1))",
+    "compile-deep-destructure-fn-param": "(var t 'a) (repeat D (set t (tuple/brackets t))) (compile (tuple 'fn (tuple/brackets t) 1))",
+    "compile-deep-destructure-let": "(var t 'a) (repeat D (set t (tuple/brackets t 'b))) (compile (tuple 'let (tuple/brackets t 1) 1))",
     "compile-long-do": "(compile (tuple 'do ;(seq [i :range [0 (min D 200000)]] i)))",
     "compile-long-and": "(compile (tuple 'and ;(seq [i :range [0 (min D 5000)]] true)))",
     "macex-self-expanding": ("(defmacro m [n] (if (> n 0) (tuple 'm (- n 1)) 0))", "(macex (tuple 'm D))"),
